@@ -92,12 +92,40 @@ re-wired world must be in `SC` and typed by the same certificate — decidable o
 `S5.rewire`, `wake5_rewire`, `wake5_rewire_reachable`, **`no_lost_wakeup5_rewire_reachable`**.
 NOT covered (`no_lost_wakeup5_partial`): batchers at nesting depth ≥ 2 (FALSE: `nested_batcher_false`);
 a group whose paths stand in different contexts; re-wiring IN SCRIPTS together with several groups
-(`S5` requires `NR`; the stages R … RF keep `OneGrp`).
+(`S5` requires `NR`; the stages R … RF keep `OneGrp`) — covered by STAGE V below.
 Changed with respect to the one-group version of this file: `GoodB` (clause `k`), `GoodF` (clause
 `o : OneGrp w`), `S4`, `S4R` (conjunct `OneGrp w`; the worlds are the same as before); the helper
 theorems stated for the machinery's invariant `G` — `wakeB_exec`, `wake_w3_of`,
 `blocked_genuinely_of`, `quiescent_of` — take the additional hypothesis `C03Z.GC w` (for one group:
 `Or.inl`), since `G.sc : SC w` no longer implies that there is one group only.
+
+STAGE V: SEVERAL GROUPS AND RE-WIRING IN SCRIPTS (the last part of this file; machinery
+`Proofs/C03V*.lean`).  SCOPE `S5R cl w ⊇ S4R w, S5 cl w` (decidable; preserved by every step:
+`s5r_reachable`): `S4R` with "one group" replaced by "one group, or the ENVELOPE is typed by the
+certificate", `C03V.TE cl w = C03Z.Typed cl (envl w)` — the wiring plus every connection `u → x` that a
+scripted `rewire x ups`, `u ∈ ups`, may add respects the group contexts (`C03Z.ctxInfer (envl w)`
+computes a candidate).  No other side condition: what is re-wired may be a plain device, a group
+path, a group output, inside whichever group (`exChainS`, `exNestedS`, `exNestedT`); the condition is
+NECESSARY (`script_rewire_untyped_false`, `outside_rewire_untyped_false`: a connection across two
+group contexts loses a wake-up).  Invariant `GoodV cl w` = `GoodF` with the clause "one group"
+replaced by "one group, or `TE cl w ∧ C03Z.TInv cl w`".  Method: the machinery's condition `C03Z.GC`
+contains `NR` as baggage only; the wake-up invariant `G` reads the scripts through its scope only
+(`C03V.G.esG`) and `passPart` is blind to the scripts, so the hand-over step is taken in the world
+without its scripts (`C03V.G.passPartV`, `G.stepV`); the typed-stacks invariant reads neither scripts
+nor wiring: the actions that run no script are taken in the world without scripts
+(`C03Z.tinv_exec`), the others are frames (`C03V.RW`, `rw_exec_scr`, `C03V.tinv_stepV`); the envelope
+can only shrink (`C03V.RW.envl`, `TE.of_rw`).  Theorems: `wakeV_init`, `wakeV_step`, `wakeV_runLoop`,
+`wakeV_runBegin`, `wakeV_applyOp`, `wakeV_rewire`, `ReachV` (events, runs, outside operations of the
+scripts' vocabulary, outside re-wirings that leave the envelope typed), `wakeV_reachable`,
+`s5r_reachable`, `stacks_typedV`, `blocked_genuinelyV`, `no_lost_wakeupV`,
+**`no_lost_wakeup5_script_rewire_reachable`**, `…_runLoop`, `…_infer`; `ReachF.reachV`, `ReachD.reachV`
+(stage V subsumes stage RF and stages D, E, F with outside re-wiring); `…_partial`: what remains.
+(B) ALL PATHS OF A GROUP IN ONE CONTEXT: contexts are labels — a group shared between two nesting
+levels IS in the scope `S5` if the two usages are not connected by the wiring (`exLevels`,
+`s5_exLevels`); if they are connected, no certificate exists (`shared_levels_untypable`: the
+restriction is necessary for the typing / `TInv`), while `Quiescent` holds along the whole run of the
+concrete world (`shared_levels_run_quiescent`, by evaluation; no failure of `Quiescent` is known, a
+general proof would need sets of contexts per device).  (C) `create`: not covered.
 
 RE-WIRING.  The machinery's scope `SC w` (decidable) admits `rewire x ups` in scripts:
   * `RewOK w x ups` (per operation, a condition on the static world, independent of the order in
@@ -209,6 +237,7 @@ import SimProc.Proofs.C03YResR
 import SimProc.Proofs.C03YBatR
 import SimProc.Props.C02
 import SimProc.Props.C20W
+import SimProc.Proofs.C03VTyp
 
 namespace SimProc
 namespace C03W
@@ -3021,6 +3050,757 @@ theorem goodD_exFlatBat (n : Nat) :
   wake5_simulate n 100 s5_exFlatBat.1 C01.inv_init (by decide)
     (fun n hn => by simp [C02V.acts, exFlatBat] at hn)
     ⟨⟨rfl, rfl, rfl, rfl, by decide⟩, by decide, fun h => by cases h⟩
+
+/-! ## STAGE V: SEVERAL GROUPS AND RE-WIRING IN SCRIPTS
+
+`S5R cl w ⊇ S4R w, S5 cl w`: the scope of stage RF (resources, batchers, batches, re-wiring scripts)
+with "there is one group only" replaced by "one group, or the ENVELOPE is typed by group contexts":
+`C03V.TE cl w = C03Z.Typed cl (envl w)` (`Proofs/C03VTyp.lean`).  Every wiring the scripts can ever
+produce is a sub-wiring of the envelope, and a sub-wiring of a typed wiring is typed
+(`C03V.Typed.sub`), so the typing is preserved by every step, the re-wiring steps included.  The
+invariant `GoodV cl w` carries the typed-stacks invariant `C03Z.TInv cl w` (which reads neither the
+scripts nor the wiring) next to the invariants of stage RF. -/
+
+/-- **The whole scope: several groups AND mid-run re-wiring in scripts.**  As `S4R`, with "there is
+one group only" replaced by "one group, or the ENVELOPE is typed by group contexts"
+(`C03V.TE cl w = C03Z.Typed cl (envl w)`): the wiring plus every connection `u → x` that a scripted
+`rewire x ups`, `u ∈ ups`, may add respects the contexts of the certificate `cl`. -/
+def S5R (cl : List (List Nat)) (w : World) : Prop :=
+  SC w ∧ (hasRes w = true → S11R w) ∧ (¬ NoBatch w → ScrB w ∧ C17W.SizesPos w) ∧
+    (OneGrp w ∨ C03V.TE cl w)
+
+instance (cl : List (List Nat)) (w : World) : Decidable (S5R cl w) := by unfold S5R; infer_instance
+
+/-- stage RF (one group, scripted re-wiring) is a sub-scope -/
+theorem S4R.s5r {w : World} (h : S4R w) (cl : List (List Nat)) : S5R cl w :=
+  ⟨h.1, h.2.1, h.2.2.1, Or.inl h.2.2.2⟩
+
+/-- stages D, E, F (several groups, no scripted re-wiring) are a sub-scope -/
+theorem S5.s5r {cl : List (List Nat)} {w : World} (h : S5 cl w) : S5R cl w :=
+  ⟨h.1.1, fun hr => s11R_of_S (h.2.1 hr), h.2.2.1, h.2.2.2.imp id (C03V.te_of_nr h.1.2)⟩
+
+/-- without re-wiring scripts the scope is that of stages D, E, F with `S11R` for `C11W.S` -/
+theorem s5r_iff_of_nr {cl : List (List Nat)} {w : World} (hn : NR w) :
+    S5R cl w ↔ SC w ∧ (hasRes w = true → S11R w) ∧ (¬ NoBatch w → ScrB w ∧ C17W.SizesPos w) ∧
+      (OneGrp w ∨ C03Z.Typed cl w) := by
+  unfold S5R; rw [C03V.te_iff_of_nr hn]
+
+/-- Everything the closed-world induction carries (stage V): as `GoodF` (stage RF), with the clause
+"one group" replaced by "one group, or the envelope is typed by the certificate of the scope and the
+typed-stacks invariant holds". -/
+structure GoodV (cl : List (List Nat)) (w : World) : Prop where
+  g : G [] [] [] w
+  r : hasRes w = true → C11W.Inv (es w [])
+  s : hasRes w = true → S11R w
+  c : ¬ NoBatch w → C17W.CI (es w [])
+  cs : ¬ NoBatch w → ScrB w ∧ C17W.SizesPos w
+  i : IOK w
+  t : ¬ OneGrp w → C03V.TE cl w ∧ C03Z.TInv cl w
+
+theorem GoodV.s5r {cl : List (List Nat)} {w : World} (h : GoodV cl w) : S5R cl w :=
+  ⟨h.g.sc, h.s, h.cs, by
+    by_cases h1 : OneGrp w
+    · exact Or.inl h1
+    · exact Or.inr (h.t h1).1⟩
+
+/-- the machinery's condition, for the world without its scripts -/
+theorem GoodV.gc {cl : List (List Nat)} {w : World} (h : GoodV cl w) : C03Z.GC (es w []) :=
+  C03V.gc_es h.t
+
+theorem GoodV.invB {cl : List (List Nat)} {w : World} (h : GoodV cl w) : InvB w :=
+  fun hnb => (h.c hnb).inv.of_sv (w := es w []) (w' := w) rfl
+
+theorem GoodV.settled {cl : List (List Nat)} {w : World} (h : GoodV cl w) : Settled w := by
+  intro x hk ho
+  have hnb : ¬ NoBatch w := fun hn => (noBatch_dev hn x).1 hk
+  rcases ((h.c hnb).bat x hk).settled with h1 | h1
+  · have h1' : (w.dev x).output.isSome = true := h1
+    rw [ho] at h1'; cases h1'
+  · exact h1
+
+theorem GoodV.procs {cl : List (List Nat)} {w : World} (h : GoodV cl w) (hr : hasRes w = true) :
+    ∀ e ∈ w.rm.waiting, ∃ x, e.2 = Cb.proc x := by
+  rcases h.g.wr with hn | hreg
+  · rw [hr] at hn; cases hn
+  · exact hreg.1
+
+theorem GoodV.gci {cl : List (List Nat)} {w : World} (h : GoodV cl w) (hn : ¬ NoBatch w) : GCI w :=
+  ⟨h.c hn, h.g.sc, (h.cs hn).1⟩
+
+theorem GoodV.pend {cl : List (List Nat)} {w : World} (h : GoodV cl w) (hr : hasRes w = true) :
+    C11W.Pend w := (h.r hr).pend
+
+theorem GoodV.nb {cl : List (List Nat)} {w : World} (_ : GoodV cl w) (h1 : ¬ OneGrp w) :
+    ¬ NoBatch w := fun hb => h1 (oneGrp_of_noBatch hb)
+
+/-- the typed-stacks part of the invariant, in the form of `GoodD` -/
+theorem GoodV.typed {cl : List (List Nat)} {w : World} (h : GoodV cl w) (h1 : ¬ OneGrp w) :
+    C03Z.Typed cl w ∧ C03Z.TInv cl w := ⟨(h.t h1).1.typed, (h.t h1).2⟩
+
+/-- **V2. `wakeV_step`**: every event preserves the invariant (scope included) — also the events
+that run a re-wiring script. -/
+theorem wakeV_step {cl : List (List Nat)} {w w' : World} {e : Event} (h : GoodV cl w)
+    (hst : w.step = some (e, w')) : GoodV cl w' := by
+  have r := swrw_step w w' e h.g.sc.nc hst
+  have hres : hasRes w' = true → hasRes w = true := fun hr => by rw [← hasRes_of_swr' r]; exact hr
+  have hnb : ¬ NoBatch w' → ¬ NoBatch w := fun hn hb => hn ((noBatch_of_swr' r).mpr hb)
+  refine ⟨C03V.G.stepV h.g h.invB h.settled h.i h.gc hst,
+    fun hr => inv11_es_step (h.r (hres hr)) (h.s (hres hr)).opsOK h.g.sc.nc (h.procs (hres hr)) hst,
+    fun hr => (h.s (hres hr)).of_step r,
+    fun hn => ((h.gci (hnb hn)).step hst).1,
+    fun hn => ⟨((h.gci (hnb hn)).step hst).2.scrB, sizesPos_of_swr r.1 (h.cs (hnb hn)).2⟩,
+    h.i.step (istep_step hst), fun h1 => ?_⟩
+  have h0 : ¬ OneGrp w := fun ho => h1 (oneGrp_of_swr ho r.1)
+  obtain ⟨hte, hti⟩ := h.t h0
+  have := C03V.tinv_stepV (h.c (h.nb h0)) h.g.sc hte hti hst
+  exact ⟨this.2, this.1⟩
+
+theorem wakeV_runLoop {cl : List (List Nat)} (n : Nat) : ∀ {w : World}, GoodV cl w →
+    GoodV cl (runLoop n w) := by
+  induction n with
+  | zero =>
+    intro w h
+    have r := swrw_runLoop 0 w h.g.sc.nc
+    have hres : hasRes (runLoop 0 w) = true → hasRes w = true :=
+      fun hr => by rw [← hasRes_of_swr' r]; exact hr
+    have hnb : ¬ NoBatch (runLoop 0 w) → ¬ NoBatch w := fun hn hb => hn ((noBatch_of_swr' r).mpr hb)
+    have esw : sw (w.setErr "fuel") = sw w :=
+      C03Z.sw_of_swv (C02V.swv_setErr w _) (C02V.scr_setErr ..)
+    refine ⟨h.g.setErr _, fun hr => ?_, fun hr => (h.s (hres hr)).of_step r,
+      fun hn => ((h.gci (hnb hn)).setErr _).1,
+      fun hn => ⟨((h.gci (hnb hn)).setErr _).2.scrB, sizesPos_of_swr r.1 (h.cs (hnb hn)).2⟩,
+      h.i.step (istep_runLoop 0 w), fun h1 => ?_⟩
+    · show C11W.Inv (es (w.setErr "fuel") [])
+      rw [← es_setErr]
+      exact (h.r (hres hr)).mono (C11W.monoS_setErr _ _).toMono
+    · have h0 : ¬ OneGrp w := fun ho => h1 (oneGrp_of_swr ho r.1)
+      obtain ⟨hte, hti⟩ := h.t h0
+      exact ⟨hte.of_sw esw,
+        hti.of_frame_st (C02V.sv_setErr ..) (C02V.st_setErr ..) (setErr_parts ..)⟩
+  | succ n ih =>
+    intro w h
+    unfold World.runLoop
+    split
+    · split
+      · exact h
+      · next e w' hst => exact ih (wakeV_step h hst)
+    · exact h
+
+theorem wakeV_runBegin {cl : List (List Nat)} {w : World} (h : GoodV cl w) (d : Int) :
+    GoodV cl (w.runBegin d).1 := by
+  have r := swrw_runBegin w d
+  have hres : hasRes (w.runBegin d).1 = true → hasRes w = true :=
+    fun hr => by rw [← hasRes_of_swr' r]; exact hr
+  have hnb : ¬ NoBatch (w.runBegin d).1 → ¬ NoBatch w := fun hn hb => hn ((noBatch_of_swr' r).mpr hb)
+  refine ⟨h.g.runBeginG d, fun hr => ?_, fun hr => (h.s (hres hr)).of_step r, fun hn => ?_,
+    fun hn => ⟨scrB_of_kind r.2 (fun y => stat0_kind (stat0_of_swr r.1 y)) (h.cs (hnb hn)).1,
+      sizesPos_of_swr r.1 (h.cs (hnb hn)).2⟩, h.i.step (istep_runBegin w d), fun h1 => ?_⟩
+  · rw [← es_runBegin]
+    exact C11W.inv_runBegin (es w []) d (h.r (hres hr))
+  · rw [← es_runBegin]
+    exact C17W.ci_runBegin (es w []) d (h.c (hnb hn))
+  · have h0 : ¬ OneGrp w := fun ho => h1 (oneGrp_of_swr ho r.1)
+    obtain ⟨hte, hti⟩ := h.t h0
+    exact ⟨hte.of_sw (sw_runBegin w d).sw_eq, C03Z.tinv_runBegin w d hti⟩
+
+/-- **V1. `wakeV_init`**: after `simulateInit` of a fresh world of the scope that satisfies the
+registration invariant the invariant holds. -/
+theorem wakeV_init {cl : List (List Nat)} {w : World} (hs : S5R cl w) (hi : C01.Inv w.env)
+    (h0 : 0 ≤ w.now) (he : EvOK w) (hf : FreshA w) (hreg : C20W.Reg w) :
+    GoodV cl w.simulateInit := by
+  have hg : G [] [] [] w :=
+    ⟨hs.1, fun _ => partsLeaf_fresh hf.1, hi, h0, he, heldValid_fresh hf.1,
+      kidsValid_of_leaf (partsLeaf_fresh hf.1), stkOK_of_noParts hf.1.1,
+      wr_fresh hf.2.1 (fun hr => (hf.2.2 hr).2.2.1), (fun _ hx => nomatch hx), wakeG_fresh hf.1⟩
+  have r := swrw_simulateInit w
+  have hres : hasRes w.simulateInit = true → hasRes w = true :=
+    fun hr => by rw [← hasRes_of_swr' r]; exact hr
+  have hnb : ¬ NoBatch w.simulateInit → ¬ NoBatch w := fun hn hb => hn ((noBatch_of_swr' r).mpr hb)
+  have esw := (sw_simulateInit w).sw_eq
+  refine ⟨hg.simulateInitG, fun hr => ?_, fun hr => (hs.2.1 (hres hr)).of_step r, fun hn => ?_,
+    fun hn => ⟨scrB_of_kind r.2 (fun y => stat0_kind (stat0_of_swr r.1 y)) (hs.2.2.1 (hnb hn)).1,
+      sizesPos_of_swr r.1 (hs.2.2.1 (hnb hn)).2⟩, Or.inr (ini_simulateInit hreg), fun h1 => ?_⟩
+  · rw [← es_simulateInit]
+    exact C11W.inv_simulateInit (es w []) (hs.2.1 (hres hr)).nil (hf.2.2 (hres hr))
+  · rw [← es_simulateInit]
+    refine C17W.ci_init (es w []) ⟨hf.1, ?_, (hs.2.2.1 (hnb hn)).2⟩
+    exact static_of hs.1.es_nil (fun l hl => nomatch hl) (fun l hl => nomatch hl) he
+  · have hte : C03V.TE cl w := hs.2.2.2.resolve_left (fun ho => h1 (oneGrp_of_swr ho r.1))
+    have hIw : C02V.InvW w := (C02.consS_iff w).1 (C02.consS_fresh w hf.1)
+    exact ⟨hte.of_sw esw,
+      C03Z.tinv_simulateInit w hIw (C03Z.tinv_of_empty w (held_nil_fresh hf.1)) hte.typed.tst.nb⟩
+
+/-- an operation issued from outside that some script of the world contains (a re-wiring
+included) -/
+theorem wakeV_applyOp {cl : List (List Nat)} {w : World} (h : GoodV cl w) (o : Op)
+    (ho : ∃ l ∈ w.scripts, o ∈ l) : GoodV cl (w.applyOp o).1 := by
+  obtain ⟨l, hl, hol⟩ := ho
+  have hop := h.g.sc.scriptOp hl hol
+  have hnc := opSC_not_create hop
+  have r : C02V.swr (w.applyOp o).1 = C02V.swr w := C02V.swr_applyOp w o hnc
+  have hscr : (w.applyOp o).1.scripts = w.scripts := C02V.scr_applyOp w o
+  have hres : hasRes (w.applyOp o).1 = true → hasRes w = true :=
+    fun hr => by rw [← hasRes_of_swr r]; exact hr
+  have hnb : ¬ NoBatch (w.applyOp o).1 → ¬ NoBatch w := fun hn hb => hn ((noBatch_of_swr r).mpr hb)
+  have hgci : ¬ NoBatch (w.applyOp o).1 → GCI (w.applyOp o).1 := by
+    intro hn
+    obtain ⟨h1, h2⟩ := ci_es_applyOps [o] w (h.c (hnb hn)) (h.gci (hnb hn)).2
+      (fun op hop => by rw [List.mem_singleton] at hop; subst hop; exact ⟨l, hl, hol⟩)
+    have e : w.applyOps [o] = (w.applyOp o).1.addRes (w.applyOp o).2 := rfl
+    rw [e] at h1 h2
+    exact ⟨ci_frame (v := es ((w.applyOp o).1.addRes (w.applyOp o).2) []) (v' := es (w.applyOp o).1 [])
+      h1 rfl rfl rfl rfl rfl, ⟨h2.sc.of_sw rfl, scrB_of_kind rfl (fun _ => rfl) h2.scrB⟩⟩
+  refine ⟨h.g.applyOpG o hop h.i ⟨l, hl, hol⟩,
+    fun hr => inv11_es_applyOp1 (h.r (hres hr)) o ((h.s (hres hr)).opsOK l hl o hol) hnc,
+    fun hr => (h.s (hres hr)).of_swr r hscr, fun hn => (hgci hn).1,
+    fun hn => ⟨(hgci hn).2.scrB, sizesPos_of_swr r (h.cs (hnb hn)).2⟩, ?_, fun h1 => ?_⟩
+  · exact (h.i.step (istep_applyOp w o hnc)).step ⟨rfl, C20W.Pv.of_same rfl⟩
+  · have h0 : ¬ OneGrp w := fun ho => h1 (oneGrp_of_swr ho r)
+    obtain ⟨hte, hti⟩ := h.t h0
+    have rw := C03V.rw_applyOp w o hnc ⟨l, hl, hol⟩
+    exact ⟨hte.of_rw rw, C03V.TInv.of_rw hti rw⟩
+
+/-- a re-wiring issued from outside: admissible, leaves the world in the scope `SC` and — unless
+there is one group only — its envelope typed -/
+theorem wakeV_rewire {cl : List (List Nat)} {w : World} (h : GoodV cl w) (hi : Ini w) (x : Nat)
+    (ups : List Nat) (hok : RewOK w x ups) (hfin : SC (w.rewire x ups))
+    (hty : ¬ OneGrp w → C03V.TE cl (w.rewire x ups)) :
+    GoodV cl (w.rewire x ups) ∧ Ini (w.rewire x ups) := by
+  have r : C02V.swr (w.rewire x ups) = C02V.swr w := C02V.swr_rewire w x ups
+  have hscr : (w.rewire x ups).scripts = w.scripts := C02V.scr_rewire w x ups
+  have hres : hasRes (w.rewire x ups) = true → hasRes w = true :=
+    fun hr => by rw [← hasRes_of_swr r]; exact hr
+  have hnb : ¬ NoBatch (w.rewire x ups) → ¬ NoBatch w := fun hn hb => hn ((noBatch_of_swr r).mpr hb)
+  have hi' : Ini (w.rewire x ups) := hi.step ⟨hscr, C20W.Pv_applyOp w (.rewire x ups) rfl⟩
+  refine ⟨⟨h.g.rewireD x ups hok hfin (fun z hz => hi.inited hz), fun hr => ?_,
+    fun hr => (h.s (hres hr)).of_swr r hscr, fun hn => ci_es_rewire (h.c (hnb hn)) x ups hfin,
+    fun hn => ⟨scrB_of_kind hscr (kind_rewire w x ups) (h.cs (hnb hn)).1,
+      sizesPos_of_swr r (h.cs (hnb hn)).2⟩, Or.inr hi', fun h1 => ?_⟩, hi'⟩
+  · rw [← es_rewire]
+    exact inv11_rewire (h.r (hres hr)) x ups
+  · have h0 : ¬ OneGrp w := fun ho => h1 (oneGrp_of_swr ho r)
+    exact ⟨hty h0, (h.t h0).2.of_kinds (C02V.sv_rewire w x ups) (kind_rewire w x ups)
+      (fun y => stat0_group (stat0_of_swr r y)) (parts_rewire w x ups)⟩
+
+/-- **Reachable states** (stage V): initialisation, events (the scripts' re-wirings included), runs,
+beginnings of runs, operations issued from outside that some script contains, re-wirings issued from
+outside that are admissible and leave the world in the scope (all conditions decidable on the
+current world). -/
+inductive ReachV (cl : List (List Nat)) (w0 : World) : World → Prop
+  | init : ReachV cl w0 w0.simulateInit
+  | step {w w' : World} {e : Event} : ReachV cl w0 w → w.step = some (e, w') → ReachV cl w0 w'
+  | loop {w : World} (n : Nat) : ReachV cl w0 w → ReachV cl w0 (runLoop n w)
+  | run {w : World} (d : Int) : ReachV cl w0 w → ReachV cl w0 (w.runBegin d).1
+  | op {w : World} (o : Op) : ReachV cl w0 w → (∃ l ∈ w.scripts, o ∈ l) →
+      ReachV cl w0 (w.applyOp o).1
+  | rew {w : World} (x : Nat) (ups : List Nat) : ReachV cl w0 w → RewOK w x ups →
+      SC (w.rewire x ups) → (¬ OneGrp w → C03V.TE cl (w.rewire x ups)) →
+      ReachV cl w0 (w.applyOp (.rewire x ups)).1
+
+/-- **V3. `wakeV_reachable`**: the invariant holds in every reachable state. -/
+theorem wakeV_reachable {cl : List (List Nat)} {w0 w : World} (hs : S5R cl w0)
+    (hi : C01.Inv w0.env) (h0 : 0 ≤ w0.now) (he : EvOK w0) (hf : FreshA w0) (hreg : C20W.Reg w0)
+    (hr : ReachV cl w0 w) : GoodV cl w ∧ Ini w := by
+  induction hr with
+  | init => exact ⟨wakeV_init hs hi h0 he hf hreg, ini_simulateInit hreg⟩
+  | step _ hst ih => exact ⟨wakeV_step ih.1 hst, ih.2.step (istep_step hst)⟩
+  | loop n _ ih => exact ⟨wakeV_runLoop n ih.1, ih.2.step (istep_runLoop n _)⟩
+  | run d _ ih => exact ⟨wakeV_runBegin ih.1 d, ih.2.step (istep_runBegin _ d)⟩
+  | @op w o _ ho ih =>
+    obtain ⟨l, hl, hol⟩ := ho
+    have hnc := opSC_not_create (ih.1.g.sc.scriptOp hl hol)
+    exact ⟨wakeV_applyOp ih.1 o ⟨l, hl, hol⟩,
+      (ih.2.step (istep_applyOp w o hnc)).step ⟨rfl, C20W.Pv.of_same rfl⟩⟩
+  | rew x ups _ hok hfin hty ih => exact wakeV_rewire ih.1 ih.2 x ups hok hfin hty
+
+/-- the scope is preserved along every reachable state -/
+theorem s5r_reachable {cl : List (List Nat)} {w0 w : World} (hs : S5R cl w0) (hi : C01.Inv w0.env)
+    (h0 : 0 ≤ w0.now) (he : EvOK w0) (hf : FreshA w0) (hreg : C20W.Reg w0)
+    (hr : ReachV cl w0 w) : S5R cl w :=
+  (wakeV_reachable hs hi h0 he hf hreg hr).1.s5r
+
+/-- the invariant gives the machinery's invariants for the world without its scripts -/
+theorem GoodV.quiescent_es {cl : List (List Nat)} {w : World} (h : GoodV cl w)
+    (hc : ClockAdvances w) (d p : Nat) (hr : ready w d p) : BlockedW (es w []) d p :=
+  blocked_genuinely_of (w := es w []) (C03V.G.esG h.g [] h.g.sc.es_nil)
+    (fun hr => (h.r hr).pend) h.gc hc d p hr
+
+/-- **V4. `blocked_genuinelyV`**: when time is about to advance, every ready part — inside, between
+or in front of the groups, in the wiring of that moment — is flagged, and no downstream neighbour
+would pass it on to anybody who accepts. -/
+theorem blocked_genuinelyV {cl : List (List Nat)} {w : World} (h : GoodV cl w)
+    (hc : ClockAdvances w) (d p : Nat) (hr : ready w d p) : BlockedW w d p := by
+  obtain ⟨h1, h2⟩ := h.quiescent_es hc d p hr
+  refine ⟨h1, fun y hy => ?_⟩
+  have := h2 y hy
+  rw [C03V.wouldAccept_es] at this
+  exact this
+
+theorem no_lost_wakeupV {cl : List (List Nat)} {w : World} (h : GoodV cl w)
+    (hc : ClockAdvances w) : Quiescent w := by
+  rw [quiescent_iff]
+  intro d p x hr hx
+  exact (blocked_genuinelyV h hc d p hr).2 x hx
+
+/-- the stacks of the held parts are typed for the contexts of their holders, whatever the scripts
+have re-wired so far -/
+theorem stacks_typedV {cl : List (List Nat)} {w : World} (h : GoodV cl w) (h1 : ¬ OneGrp w)
+    {d p : Nat} (hd : d < w.devs.length) (hk : (w.dev d).kind ≠ .sink) (hp : p ∈ heldL (w.dev d)) :
+    C03Z.TS (C08W.topo w) (C03Z.cx cl) (C03Z.cx cl d) (w.part p).stack :=
+  (h.t h1).2.1 d (C02V.sdev (w.dev d)) p (C02V.sv_get w d hd) hk hp
+
+/-- **The closed-world statement for several groups with re-wiring IN SCRIPTS** (and from outside):
+in every state reachable from an initialised fresh world of the scope `S5R cl` — any number of
+groups, in sequence, re-entrant, nested; resources, batchers (nesting depth ≤ 1), batches, buffers,
+gates; scripts that re-wire devices outside, between, inside the groups, group paths and group
+outputs, within the typed envelope — whenever the clock is about to advance no ready part could be
+handed over, in the wiring of that moment. -/
+theorem no_lost_wakeup5_script_rewire_reachable {cl : List (List Nat)} {w0 w : World}
+    (hs : S5R cl w0) (hi : C01.Inv w0.env) (h0 : 0 ≤ w0.now) (he : EvOK w0) (hf : FreshA w0)
+    (hreg : C20W.Reg w0) (hr : ReachV cl w0 w) (hc : ClockAdvances w) : Quiescent w :=
+  no_lost_wakeupV (wakeV_reachable hs hi h0 he hf hreg hr).1 hc
+
+theorem no_lost_wakeup5_script_rewire_runLoop {cl : List (List Nat)} (n : Nat) {w : World}
+    (hs : S5R cl w) (hi : C01.Inv w.env) (h0 : 0 ≤ w.now) (he : EvOK w) (hf : FreshA w)
+    (hreg : C20W.Reg w) (hc : ClockAdvances (runLoop n w.simulateInit)) :
+    Quiescent (runLoop n w.simulateInit) :=
+  no_lost_wakeup5_script_rewire_reachable hs hi h0 he hf hreg (.loop n .init) hc
+
+/-- The same with the computed certificate (a decidable scope of the world alone): the contexts are
+inferred from the ENVELOPE. -/
+theorem no_lost_wakeup5_script_rewire_infer {w0 w : World}
+    (hs : S5R (C03Z.ctxInfer (envl w0)) w0) (hi : C01.Inv w0.env) (h0 : 0 ≤ w0.now) (he : EvOK w0)
+    (hf : FreshA w0) (hreg : C20W.Reg w0) (hr : ReachV (C03Z.ctxInfer (envl w0)) w0 w)
+    (hc : ClockAdvances w) : Quiescent w :=
+  no_lost_wakeup5_script_rewire_reachable hs hi h0 he hf hreg hr hc
+
+/-- stage V subsumes stage RF: the states reachable there are reachable here -/
+theorem ReachF.reachV {w0 w : World} (cl : List (List Nat)) (hs : S4R w0) (hi : C01.Inv w0.env)
+    (h0 : 0 ≤ w0.now) (he : EvOK w0) (hf : FreshA w0) (hreg : C20W.Reg w0) (hr : ReachF w0 w) :
+    ReachV cl w0 w := by
+  induction hr with
+  | init => exact .init
+  | step _ hst ih => exact .step ih hst
+  | loop n _ ih => exact .loop n ih
+  | run d _ ih => exact .run d ih
+  | op o _ ho ih => exact .op o ih ho
+  | rew x ups hr' hok hfin ih =>
+    exact .rew x ups ih hok hfin
+      (fun h1 => absurd (wakeF_reachable hs hi h0 he hf hreg hr').1.o h1)
+
+/-- stage V subsumes stages D, E, F with re-wiring from outside -/
+theorem ReachD.reachV {cl : List (List Nat)} {w0 w : World} (hs : S5 cl w0) (hi : C01.Inv w0.env)
+    (h0 : 0 ≤ w0.now) (he : EvOK w0) (hf : FreshA w0) (hreg : C20W.Reg w0) (hr : ReachD cl w0 w) :
+    ReachV cl w0 w := by
+  induction hr with
+  | init => exact .init
+  | step _ hst ih => exact .step ih hst
+  | loop n _ ih => exact .loop n ih
+  | run d _ ih => exact .run d ih
+  | @rew w x ups hr' hok hfin hty ih =>
+    refine .rew x ups ih hok hfin (fun h1 => C03V.te_of_nr ?_ (hty h1))
+    exact (wake5_rewire_reachable hs hi h0 he hf hreg hr').1.nr.of_scripts
+      (C02V.scr_rewire w x ups)
+
+/-- What remains PARTIAL after stage V with respect to "several groups": (1) a batcher at nesting
+depth ≥ 2 (FALSE: `nested_batcher_false`); (2) a group whose paths stand in different contexts AND are
+connected by the wiring (no certificate exists: `shared_levels_untypable`; groups shared between
+nesting levels in different components of the wiring ARE covered: `exLevels`); (3) `create` (assets
+constructed mid-run).  Scripted re-wiring is covered whenever the envelope is typed (necessary:
+`script_rewire_untyped_false`, `outside_rewire_untyped_false`). -/
+theorem no_lost_wakeup5_script_rewire_partial {cl : List (List Nat)} {w0 w : World}
+    (hs : S5R cl w0) (hi : C01.Inv w0.env) (h0 : 0 ≤ w0.now) (he : EvOK w0) (hf : FreshA w0)
+    (hreg : C20W.Reg w0) (hr : ReachV cl w0 w) (hc : ClockAdvances w) : Quiescent w :=
+  no_lost_wakeup5_script_rewire_reachable hs hi h0 he hf hreg hr hc
+
+/-! ### non-vacuity, stage V -/
+
+/-- STAGE D with a scripted re-wiring: `exChain` (two groups in sequence) with a free sink 10 that
+is not connected; at t = 5 script 0 connects it behind group path 5 of the second group:
+`rewire 10 [5]` -/
+def exChainS : World :=
+  { exChainR with env := envAt 5 0, scripts := [[.rewire 10 [5]]] }
+
+/-- in the scope of stage V — typed envelope — and in none of the scopes before (several groups AND
+a re-wiring script); registered; the certificate is the one computed from the envelope -/
+theorem s5r_exChainS : S5R (clChain ++ [[]]) exChainS ∧ ¬ S4R exChainS ∧
+    ¬ S5 (clChain ++ [[]]) exChainS ∧ ¬ OneGrp exChainS ∧ ¬ NR exChainS ∧ C20W.Reg exChainS := by
+  decide
+
+set_option maxRecDepth 4000 in
+theorem ctxInfer_exChainS : C03Z.ctxInfer (envl exChainS) = clChain ++ [[]] := by decide
+
+theorem freshA_exChainS : FreshA exChainS :=
+  ⟨⟨rfl, rfl, rfl, rfl, by decide⟩, by decide, fun h => by cases h⟩
+
+/-- the hypotheses of the closed-world theorem of stage V are satisfiable -/
+theorem goodV_exChainS (n : Nat) : GoodV (clChain ++ [[]]) (runLoop n exChainS.simulateInit) :=
+  (wakeV_reachable s5r_exChainS.1 (by decide) (by decide) (evOK_envAt5 _ rfl) freshA_exChainS
+    s5r_exChainS.2.2.2.2.2 (.loop n .init)).1
+
+/-- t = 4 (as `exChainBlocked`): the machine 7 of the second group holds part 1 (stack [5]), the
+machine 3 of the first group part 2 (stack [1]), the source part 3; the sink is busy until 8; all
+flagged; the clock is about to advance to 5; everything is genuinely blocked -/
+example : (runLoop 21 exChainS.simulateInit).now = 4 ∧ ClockAdvances (runLoop 21 exChainS.simulateInit) ∧
+    ((runLoop 21 exChainS.simulateInit).part 1).stack = [5] ∧
+    BlockedW (runLoop 21 exChainS.simulateInit) 7 1 ∧ BlockedW (runLoop 21 exChainS.simulateInit) 3 2 ∧
+    BlockedW (runLoop 21 exChainS.simulateInit) 0 3 ∧
+    Quiescent (runLoop 21 exChainS.simulateInit) := by decide
+
+example : Quiescent (runLoop 21 exChainS.simulateInit) :=
+  no_lost_wakeupV (goodV_exChainS 21) (by decide)
+
+/-- … instantiating the closed-world theorem itself -/
+example : Quiescent (runLoop 21 exChainS.simulateInit) :=
+  no_lost_wakeup5_script_rewire_runLoop 21 s5r_exChainS.1 (by decide) (by decide)
+    (evOK_envAt5 _ rfl) freshA_exChainS s5r_exChainS.2.2.2.2.2 (by decide)
+
+/-- t = 5, right after the SCRIPT has re-wired: group path 5 has the free sink as a second downstream
+neighbour; the notification has gone from the path through the output of group 1 to the machine 7,
+whose attempt is queued for this instant; one event later part 1 has been delivered to the new
+sink, still at t = 5; the scope is preserved -/
+example : (runLoop 22 exChainS.simulateInit).now = 5 ∧
+    ((runLoop 22 exChainS.simulateInit).dev 5).down = [9, 10] ∧
+    ((runLoop 22 exChainS.simulateInit).dev 7).waitingDS = false ∧
+    Att (runLoop 22 exChainS.simulateInit) 7 ∧
+    (runLoop 23 exChainS.simulateInit).now = 5 ∧
+    (runLoop 23 exChainS.simulateInit).delivered = [0, 1] ∧
+    S5R (clChain ++ [[]]) (runLoop 23 exChainS.simulateInit) := by decide
+
+/-- STAGE F with a scripted re-wiring INSIDE THE INNER GROUP: `exNested` with a slow inner machine 6
+(cycle 10) and a second inner machine 10 (context [0, 1], already wired to the inner output 7) that is
+not connected to the inner group input 5; at t = 5 script 0 connects it: `rewire 10 [5]` -/
+def exNestedS : World :=
+  { env := envAt 5 0
+    scripts := [[.rewire 10 [5]]]
+    devs := [{ kind := .source, aid := 1, down := [1], cycle := 1, maxParts := some 4 },
+             { kind := .gpath, aid := 2, group := 0, up := [0], down := [9] },
+             { kind := .ginput, aid := 3, group := 0, down := [3] },
+             { kind := .handler, aid := 4, up := [2], down := [4], cycle := 1 },
+             { kind := .gpath, aid := 5, group := 1, up := [3], down := [8] },
+             { kind := .ginput, aid := 6, group := 1, down := [6] },
+             { kind := .handler, aid := 7, up := [5], down := [7], cycle := 10 },
+             { kind := .goutput, aid := 8, group := 1, up := [6, 10] },
+             { kind := .goutput, aid := 9, group := 0, up := [4] },
+             { kind := .sink, aid := 10, up := [1] },
+             { kind := .handler, aid := 11, down := [7], cycle := 1 }],
+    groups := [{ paths := [1], input := 2, output := 8 }, { paths := [4], input := 5, output := 7 }],
+    assets := [.dev 0, .dev 1, .dev 2, .dev 3, .dev 4, .dev 5, .dev 6, .dev 7, .dev 8, .dev 9, .dev 10] }
+
+/-- in the scope of stage V (nested groups, a re-wiring script); the context [0, 1] of the new machine
+is found by inferring the contexts from the ENVELOPE (the wiring alone does not reach it) -/
+theorem s5r_exNestedS : S5R (clNested ++ [[0, 1]]) exNestedS ∧ ¬ S4R exNestedS ∧
+    ¬ C03Z.Flat (clNested ++ [[0, 1]]) ∧ C20W.Reg exNestedS := by decide
+
+set_option maxRecDepth 4000 in
+theorem ctxInfer_exNestedS : C03Z.ctxInfer (envl exNestedS) = clNested ++ [[0, 1]] ∧
+    C03Z.ctxInfer exNestedS ≠ clNested ++ [[0, 1]] := by decide
+
+theorem goodV_exNestedS (n : Nat) : GoodV (clNested ++ [[0, 1]]) (runLoop n exNestedS.simulateInit) :=
+  (wakeV_reachable s5r_exNestedS.1 (by decide) (by decide) (evOK_envAt5 _ rfl)
+    ⟨⟨rfl, rfl, rfl, rfl, by decide⟩, by decide, fun h => by cases h⟩ s5r_exNestedS.2.2.2
+    (.loop n .init)).1
+
+/-- t = 3: the inner machine 6 is busy until 12; the OUTER machine 3 holds part 1 (stack [1]) in front
+of the inner group and is flagged, the source holds part 2; the clock is about to advance to 5;
+genuinely blocked -/
+example : (runLoop 11 exNestedS.simulateInit).now = 3 ∧ ClockAdvances (runLoop 11 exNestedS.simulateInit) ∧
+    ((runLoop 11 exNestedS.simulateInit).part 1).stack = [1] ∧
+    BlockedW (runLoop 11 exNestedS.simulateInit) 3 1 ∧ BlockedW (runLoop 11 exNestedS.simulateInit) 0 2 ∧
+    Quiescent (runLoop 11 exNestedS.simulateInit) := by decide
+
+example : Quiescent (runLoop 11 exNestedS.simulateInit) :=
+  no_lost_wakeupV (goodV_exNestedS 11) (by decide)
+
+/-- t = 5, right after the script: the inner group input has the new machine as a second downstream
+neighbour; the notification has gone from the inner group input through the inner group path 4 to
+the outer machine 3, whose attempt is queued for this instant; one event later part 1 stands in the
+new inner machine with the stack [1, 4] — typed for its context [0, 1], as the invariant says -/
+example : (runLoop 12 exNestedS.simulateInit).now = 5 ∧
+    ((runLoop 12 exNestedS.simulateInit).dev 5).down = [6, 10] ∧
+    Att (runLoop 12 exNestedS.simulateInit) 3 ∧
+    ((runLoop 13 exNestedS.simulateInit).dev 10).part = some 1 ∧
+    ((runLoop 13 exNestedS.simulateInit).part 1).stack = [1, 4] ∧
+    (runLoop 20 exNestedS.simulateInit).delivered = [1] := by decide
+
+example : C03Z.TS (C08W.topo (runLoop 13 exNestedS.simulateInit)) (C03Z.cx (clNested ++ [[0, 1]]))
+    (C03Z.cx (clNested ++ [[0, 1]]) 10) ((runLoop 13 exNestedS.simulateInit).part 1).stack :=
+  stacks_typedV (goodV_exNestedS 13) (by decide) (by decide) (by decide) (by decide)
+
+/-- an operation issued from outside (taken from the scripts' vocabulary): the re-wiring at t = 3 -/
+example : GoodV (clNested ++ [[0, 1]]) ((runLoop 11 exNestedS.simulateInit).applyOp (.rewire 10 [5])).1 :=
+  wakeV_applyOp (goodV_exNestedS 11) _ ⟨_, List.mem_singleton.mpr rfl, List.mem_singleton.mpr rfl⟩
+
+/-- WHAT IS RE-WIRED MAY BE A GROUP OUTPUT: as `exNestedS`, but the second inner machine 10 is
+connected to the inner group input 5 from the start and has NO downstream neighbour; at t = 5 script 0
+re-wires the OUTPUT 7 OF THE INNER GROUP: `rewire 7 [6, 10]` (no condition "what is re-wired is a
+plain device" is needed: the typing of the envelope is all) -/
+def exNestedT : World :=
+  { env := envAt 5 0
+    scripts := [[.rewire 7 [6, 10]]]
+    devs := [{ kind := .source, aid := 1, down := [1], cycle := 1, maxParts := some 4 },
+             { kind := .gpath, aid := 2, group := 0, up := [0], down := [9] },
+             { kind := .ginput, aid := 3, group := 0, down := [3] },
+             { kind := .handler, aid := 4, up := [2], down := [4], cycle := 1 },
+             { kind := .gpath, aid := 5, group := 1, up := [3], down := [8] },
+             { kind := .ginput, aid := 6, group := 1, down := [10, 6] },
+             { kind := .handler, aid := 7, up := [5], down := [7], cycle := 10 },
+             { kind := .goutput, aid := 8, group := 1, up := [6] },
+             { kind := .goutput, aid := 9, group := 0, up := [4] },
+             { kind := .sink, aid := 10, up := [1] },
+             { kind := .handler, aid := 11, up := [5], cycle := 1 }],
+    groups := [{ paths := [1], input := 2, output := 8 }, { paths := [4], input := 5, output := 7 }],
+    assets := [.dev 0, .dev 1, .dev 2, .dev 3, .dev 4, .dev 5, .dev 6, .dev 7, .dev 8, .dev 9, .dev 10] }
+
+theorem s5r_exNestedT : S5R (clNested ++ [[0, 1]]) exNestedT ∧ C20W.Reg exNestedT := by decide
+
+theorem goodV_exNestedT (n : Nat) : GoodV (clNested ++ [[0, 1]]) (runLoop n exNestedT.simulateInit) :=
+  (wakeV_reachable s5r_exNestedT.1 (by decide) (by decide) (evOK_envAt5 _ rfl)
+    ⟨⟨rfl, rfl, rfl, rfl, by decide⟩, by decide, fun h => by cases h⟩ s5r_exNestedT.2
+    (.loop n .init)).1
+
+/-- t = 4: the inner machine 10 holds part 0 (stack [1, 4]) and has nobody to hand it to: flagged,
+genuinely blocked, the clock is about to advance; t = 5, right after the script: the inner group
+output has the machine as a second upstream neighbour, the machine has been told and its attempt is
+queued for this instant; one event later part 0 has left both groups and is delivered -/
+example : (runLoop 18 exNestedT.simulateInit).now = 4 ∧ ClockAdvances (runLoop 18 exNestedT.simulateInit) ∧
+    ((runLoop 18 exNestedT.simulateInit).part 0).stack = [1, 4] ∧
+    ((runLoop 18 exNestedT.simulateInit).dev 10).down = [] ∧
+    BlockedW (runLoop 18 exNestedT.simulateInit) 10 0 ∧
+    (runLoop 19 exNestedT.simulateInit).now = 5 ∧
+    ((runLoop 19 exNestedT.simulateInit).dev 10).down = [7] ∧
+    Att (runLoop 19 exNestedT.simulateInit) 10 ∧
+    (runLoop 20 exNestedT.simulateInit).delivered = [0] := by decide
+
+example : Quiescent (runLoop 18 exNestedT.simulateInit) :=
+  no_lost_wakeupV (goodV_exNestedT 18) (by decide)
+
+/-- BATCHERS, TWO GROUPS AND A RE-WIRING SCRIPT: `exFlatBat` (batcher and unbatcher inside group 0,
+group 1 behind it, slow sink 10) with a free sink 11; at t = 5 script 0 connects it behind group path 6
+of the second group: `rewire 11 [6]` -/
+def exFlatBatS : World :=
+  { exFlatBat with
+      env := envAt 5 0
+      scripts := [[.rewire 11 [6]]]
+      devs := exFlatBat.devs ++ [{ kind := .sink, aid := 12 }]
+      assets := exFlatBat.assets ++ [.dev 11] }
+
+theorem s5r_exFlatBatS : S5R (clFlatBat ++ [[]]) exFlatBatS ∧ ¬ S4R exFlatBatS ∧
+    ¬ C03Z.NoBat exFlatBatS ∧ C20W.Reg exFlatBatS := by decide
+
+theorem goodV_exFlatBatS (n : Nat) : GoodV (clFlatBat ++ [[]]) (runLoop n exFlatBatS.simulateInit) :=
+  (wakeV_reachable s5r_exFlatBatS.1 (by decide) (by decide) (evOK_envAt5 _ rfl)
+    ⟨⟨rfl, rfl, rfl, rfl, by decide⟩, by decide, fun h => by cases h⟩ s5r_exFlatBatS.2.2.2
+    (.loop n .init)).1
+
+/-- t = 4: the machine 8 of the second group holds part 2 (stack [6]) in front of the busy sink, the
+unbatcher 4 of the first group holds the unpacked part 3 (stack [1]); both flagged; the clock is about
+to advance; t = 5, after the script: the machine 8 has been woken through the output of group 1 and
+delivers part 2 to the new sink -/
+example : (runLoop 18 exFlatBatS.simulateInit).now = 4 ∧ ClockAdvances (runLoop 18 exFlatBatS.simulateInit) ∧
+    BlockedW (runLoop 18 exFlatBatS.simulateInit) 8 2 ∧ BlockedW (runLoop 18 exFlatBatS.simulateInit) 4 3 ∧
+    (runLoop 21 exFlatBatS.simulateInit).now = 5 ∧ Att (runLoop 21 exFlatBatS.simulateInit) 8 ∧
+    (runLoop 22 exFlatBatS.simulateInit).delivered = [0, 2] := by decide
+
+example : Quiescent (runLoop 18 exFlatBatS.simulateInit) :=
+  no_lost_wakeupV (goodV_exFlatBatS 18) (by decide)
+
+/-! ### the typing of the envelope is needed (machine-checked counterexamples) -/
+
+/-- two groups (group 0: path 1, input 2, machine 3, output 4, in front of the slow sink 9; group 1:
+path 5, input 6, machine 7, output 8); at t = 1 script 0 makes the machine 3 INSIDE GROUP 0 a second
+upstream neighbour of the machine 7 INSIDE GROUP 1: `rewire 7 [6, 3]` — a connection across the
+contexts [0] and [1] -/
+def cexCross : World :=
+  { env := envAt 1 0
+    scripts := [[.rewire 7 [6, 3]]]
+    devs := [{ kind := .source, aid := 1, down := [1], cycle := 1, maxParts := some 3 },
+             { kind := .gpath, aid := 2, group := 0, up := [0], down := [9] },
+             { kind := .ginput, aid := 3, group := 0, down := [3] },
+             { kind := .handler, aid := 4, up := [2], down := [4], cycle := 1 },
+             { kind := .goutput, aid := 5, group := 0, up := [3] },
+             { kind := .gpath, aid := 6, group := 1, down := [10] },
+             { kind := .ginput, aid := 7, group := 1, down := [7] },
+             { kind := .handler, aid := 8, up := [6], down := [8], cycle := 1 },
+             { kind := .goutput, aid := 9, group := 1, up := [7] },
+             { kind := .sink, aid := 10, up := [1], cycle := 10 },
+             { kind := .sink, aid := 11, up := [5] }],
+    groups := [{ paths := [1], input := 2, output := 4 }, { paths := [5], input := 6, output := 8 }],
+    assets := [.dev 0, .dev 1, .dev 2, .dev 3, .dev 4, .dev 5, .dev 6, .dev 7, .dev 8, .dev 9, .dev 10] }
+
+def clCross : List (List Nat) := [[], [], [0], [0], [0], [], [1], [1], [1], [], []]
+
+/-- **A scripted re-wiring across group contexts loses a wake-up.**  The world satisfies every
+condition of the scope `S5R` — `SC` (the re-wiring is admissible: `RewOK`, `EnvOK`), the conditions
+of the conservation theorem, the wiring of the moment is typed by `clCross` — except that the
+ENVELOPE is not typed (the scripted connection 3 → 7 leads from the context [0] into the context
+[1]); it is fresh and registered.  Part 0 moves from the machine 3 (stack [1], a path of group 0)
+straight into the machine 7 of group 1; its way out leads through the output 8 of group 1 and the
+downstream list of path 1 to the sink 9; when the sink becomes idle its notification goes up along
+path 1 to the output of group 0 only: at the end of the run (t = 23, nothing queued any more) the
+machine 7 still holds part 0, flagged, while the sink would accept it. -/
+theorem script_rewire_untyped_false :
+    SC cexCross ∧ (¬ NoBatch cexCross → ScrB cexCross ∧ C17W.SizesPos cexCross) ∧
+    hasRes cexCross = false ∧ C03Z.Typed clCross cexCross ∧ ¬ C03V.TE clCross cexCross ∧
+    ¬ S5R clCross cexCross ∧ FreshA cexCross ∧ C20W.Reg cexCross ∧
+    ClockAdvances (runLoop 23 cexCross.simulateInit) ∧
+    ((runLoop 23 cexCross.simulateInit).part 0).stack = [1] ∧
+    ready (runLoop 23 cexCross.simulateInit) 7 0 ∧
+    ((runLoop 23 cexCross.simulateInit).dev 7).waitingDS = true ∧
+    wouldAccept (runLoop 23 cexCross.simulateInit).fuel (runLoop 23 cexCross.simulateInit) 8 0 = true ∧
+    (runLoop 23 cexCross.simulateInit).error = none ∧
+    ¬ Quiescent (runLoop 23 cexCross.simulateInit) := by
+  refine ⟨by decide, by decide, by decide, by decide, by decide, by decide,
+    ⟨⟨rfl, rfl, rfl, rfl, by decide⟩, by decide, fun h => by cases h⟩,
+    by decide, by decide, by decide, by decide, by decide, by decide, by decide, by decide⟩
+
+/-- the same world without the script -/
+def cexCrossO : World := { cexCross with env := {}, scripts := [] }
+
+/-- **The same re-wiring issued from outside**: the world is in the scope `S5` of stages D, E, F; the
+re-wiring is admissible and leaves the world in the scope `SC` — the first two conditions of
+`ReachD.rew` / `ReachV.rew` — but not typed (the third condition); the same wake-up is lost. -/
+theorem outside_rewire_untyped_false :
+    S5 clCross cexCrossO ∧ RewOK (cexCrossO.simulateInit.runBegin 100).1 7 [6, 3] ∧
+    SC ((cexCrossO.simulateInit.runBegin 100).1.rewire 7 [6, 3]) ∧
+    ¬ C03Z.Typed clCross ((cexCrossO.simulateInit.runBegin 100).1.rewire 7 [6, 3]) ∧
+    ClockAdvances (runLoop 23 ((cexCrossO.simulateInit.runBegin 100).1.rewire 7 [6, 3])) ∧
+    ready (runLoop 23 ((cexCrossO.simulateInit.runBegin 100).1.rewire 7 [6, 3])) 7 0 ∧
+    (runLoop 23 ((cexCrossO.simulateInit.runBegin 100).1.rewire 7 [6, 3])).error = none ∧
+    ¬ Quiescent (runLoop 23 ((cexCrossO.simulateInit.runBegin 100).1.rewire 7 [6, 3])) := by
+  refine ⟨by decide, by decide, by decide, by decide, by decide, by decide, by decide, by decide⟩
+
+/-! ## (B) ALL PATHS OF A GROUP IN THE SAME CONTEXT
+
+`C03Z.Typed` assigns ONE context to every device, hence to the devices inside a group; the input
+device of a group stands in the context of each of its paths extended by the group.  The contexts
+of the certificate are LABELS, however: nothing forces the top level of the plant to carry the empty
+context.  A group shared between two different nesting levels is typed (by a certificate that places
+the outer usage "virtually inside" the enclosing group of the inner usage) whenever the two usages
+are not connected by the wiring: `exLevels`, covered by the theorems of stages D, E, F as they are.
+If the usages ARE connected (the same part passes the shared group at level 0 and again at level 1),
+no certificate exists: `shared_levels_untypable` — the restriction is necessary for the typing, hence
+for the invariant `TInv`.  `Quiescent` itself is not known to fail there: on the concrete world
+`cexLevels` the stacks route every part correctly through both levels ([1] at the first passage,
+[2, 5] at the second), every wake-up arrives (through the outputs of BOTH groups), and the state is
+quiescent at every clock advance of the run (`shared_levels_run_quiescent`, by evaluation); a proof
+for all such worlds needs a typing with SETS of contexts per device and is not attempted. -/
+
+/-- line 1 (top level): source 0 → group path 2 of group 0 → sink 11; line 2: source 1 → group path 3
+of group 1 (input 4 → machine 5 → GROUP PATH 6 OF GROUP 0 → output 7) → sink 12; group 0 (input 8 →
+machine 9 → output 10) is shared between the top level (path 2) and the inside of group 1 (path 6) -/
+def exLevels : World :=
+  { devs := [{ kind := .source, aid := 1, down := [2], cycle := 1, maxParts := some 3 },
+             { kind := .source, aid := 2, down := [3], cycle := 1, maxParts := some 3 },
+             { kind := .gpath, aid := 3, group := 0, up := [0], down := [11] },
+             { kind := .gpath, aid := 4, group := 1, up := [1], down := [12] },
+             { kind := .ginput, aid := 5, group := 1, down := [5] },
+             { kind := .handler, aid := 6, up := [4], down := [6], cycle := 1 },
+             { kind := .gpath, aid := 7, group := 0, up := [5], down := [7] },
+             { kind := .goutput, aid := 8, group := 1, up := [6] },
+             { kind := .ginput, aid := 9, group := 0, down := [9] },
+             { kind := .handler, aid := 10, up := [8], down := [10], cycle := 2 },
+             { kind := .goutput, aid := 11, group := 0, up := [9] },
+             { kind := .sink, aid := 12, up := [2], cycle := 5 },
+             { kind := .sink, aid := 13, up := [3], cycle := 5 }],
+    groups := [{ paths := [2, 6], input := 8, output := 10 }, { paths := [3], input := 4, output := 7 }],
+    assets := [.dev 0, .dev 1, .dev 2, .dev 3, .dev 4, .dev 5, .dev 6, .dev 7, .dev 8, .dev 9, .dev 10,
+      .dev 11, .dev 12] }
+
+/-- the certificate: line 1 carries the label [1] ("virtually inside group 1"), the shared group
+stands in the context [1, 0] -/
+def clLevels : List (List Nat) :=
+  [[1], [], [1], [], [1], [1], [1], [1], [1, 0], [1, 0], [1, 0], [1], []]
+
+/-- **A group shared between two nesting levels is in the scope `S5`** (typed by `clLevels`); the
+contexts computed by propagation from the sources (top level = empty context) are NOT a typing. -/
+theorem s5_exLevels : S5 clLevels exLevels ∧ ¬ S4 exLevels ∧ ¬ C03Z.Flat clLevels := by decide
+
+set_option maxRecDepth 4000 in
+theorem ctxInfer_exLevels : ¬ C03Z.Typed (C03Z.ctxInfer exLevels) exLevels := by decide
+
+theorem goodD_exLevels (n : Nat) :
+    GoodD clLevels (runLoop n (exLevels.simulateInit.runBegin 100).1) :=
+  wake5_simulate n 100 s5_exLevels.1 C01.inv_init (by decide)
+    (fun n hn => by simp [C02V.acts, exLevels] at hn)
+    ⟨⟨rfl, rfl, rfl, rfl, by decide⟩, by decide, fun h => by cases h⟩
+
+/-- the shared machine 9 holds a part of line 1 with the stack [2] (depth 1) at t = 5 and a part of
+line 2 with the stack [3, 6] (depth 2) at t = 17; both states are quiescent when the clock advances,
+by the theorem -/
+example : ((runLoop 18 (exLevels.simulateInit.runBegin 100).1).part 2).stack = [2] ∧
+    ready (runLoop 18 (exLevels.simulateInit.runBegin 100).1) 9 2 ∧
+    ((runLoop 44 (exLevels.simulateInit.runBegin 100).1).part 3).stack = [3, 6] ∧
+    ready (runLoop 44 (exLevels.simulateInit.runBegin 100).1) 9 3 ∧
+    BlockedW (runLoop 44 (exLevels.simulateInit.runBegin 100).1) 9 3 := by decide
+
+example : Quiescent (runLoop 18 (exLevels.simulateInit.runBegin 100).1) ∧
+    Quiescent (runLoop 44 (exLevels.simulateInit.runBegin 100).1) :=
+  ⟨no_lost_wakeup5 (goodD_exLevels 18) (by decide), no_lost_wakeup5 (goodD_exLevels 44) (by decide)⟩
+
+/-- ONE line passes the shared group 0 twice — at the top level through path 1, and again inside
+group 1 through path 5: source 0 → path 1 (group 0) → path 2 (group 1: input 3 → machine 4 → PATH 5 OF
+GROUP 0 → output 6) → sink 10; group 0: input 7 → machine 8 → output 9 -/
+def cexLevels : World :=
+  { devs := [{ kind := .source, aid := 1, down := [1], cycle := 4, maxParts := some 3 },
+             { kind := .gpath, aid := 2, group := 0, up := [0], down := [2] },
+             { kind := .gpath, aid := 3, group := 1, up := [1], down := [10] },
+             { kind := .ginput, aid := 4, group := 1, down := [4] },
+             { kind := .handler, aid := 5, up := [3], down := [5], cycle := 1 },
+             { kind := .gpath, aid := 6, group := 0, up := [4], down := [6] },
+             { kind := .goutput, aid := 7, group := 1, up := [5] },
+             { kind := .ginput, aid := 8, group := 0, down := [8] },
+             { kind := .handler, aid := 9, up := [7], down := [9], cycle := 2 },
+             { kind := .goutput, aid := 10, group := 0, up := [8] },
+             { kind := .sink, aid := 11, up := [2], cycle := 7 }],
+    groups := [{ paths := [1, 5], input := 7, output := 9 }, { paths := [2], input := 3, output := 6 }],
+    assets := [.dev 0, .dev 1, .dev 2, .dev 3, .dev 4, .dev 5, .dev 6, .dev 7, .dev 8, .dev 9, .dev 10] }
+
+/-- **No certificate types a group whose usages at two nesting levels are connected by the wiring**:
+the input device 7 of group 0 would have to stand in the context of path 1 and in that of path 5,
+each extended by the group, and the wiring 1 → 2 ⇒ 3 → 4 → 5 puts path 5 one level below path 1.  The
+world satisfies every other condition of the scope `S5`. -/
+theorem shared_levels_untypable :
+    ((SC cexLevels ∧ NR cexLevels) ∧ (hasRes cexLevels = true → C11W.S cexLevels) ∧
+      (¬ NoBatch cexLevels → ScrB cexLevels ∧ C17W.SizesPos cexLevels)) ∧
+    ∀ cl, ¬ C03Z.Typed cl cexLevels := by
+  refine ⟨by decide, fun cl h => ?_⟩
+  have h1 := (h.at 1).2.1 (by decide)
+  have h5 := (h.at 5).2.1 (by decide)
+  have h2 := (h.at 2).2.1 (by decide)
+  have e12 := (h.at 1).1 2 (by decide)
+  have e34 := (h.at 3).1 4 (by decide)
+  have e45 := (h.at 4).1 5 (by decide)
+  have g1 : groupIn cexLevels 1 = 7 := by decide
+  have g5 : groupIn cexLevels 5 = 7 := by decide
+  have g2 : groupIn cexLevels 2 = 3 := by decide
+  rw [g1] at h1; rw [g5] at h5; rw [g2] at h2
+  have k1 : (cexLevels.dev 1).group = 0 := by decide
+  have k5 : (cexLevels.dev 5).group = 0 := by decide
+  rw [k1] at h1; rw [k5] at h5
+  have e15 : C03Z.cx cl 1 = C03Z.cx cl 5 := List.append_cancel_right (h1.symm.trans h5)
+  have : (C03Z.cx cl 5).length = (C03Z.cx cl 1).length + 1 := by
+    rw [e45, e34, h2, e12]; simp
+  rw [e15] at this
+  omega
+
+/-- **… but the run is quiescent at every clock advance** (by evaluation, up to the end of the run at
+fuel 35: every part delivered, no error): at t = 6 the shared machine 8 holds part 0 with the stack
+[1], at t = 9 with the stack [2, 5]; at t = 14 it holds part 1 (stack [2, 5]) in front of the busy sink,
+flagged, the clock is about to advance; at t = 16 the notification of the sink has gone through the
+output of group 1 AND the output of group 0 to the machine 8, whose attempt is queued -/
+theorem shared_levels_run_quiescent :
+    (∀ n ∈ List.range 36, ClockAdvances (runLoop n (cexLevels.simulateInit.runBegin 100).1) →
+      Quiescent (runLoop n (cexLevels.simulateInit.runBegin 100).1)) ∧
+    ((runLoop 3 (cexLevels.simulateInit.runBegin 100).1).part 0).stack = [1] ∧
+    ((runLoop 9 (cexLevels.simulateInit.runBegin 100).1).part 0).stack = [2, 5] ∧
+    ClockAdvances (runLoop 19 (cexLevels.simulateInit.runBegin 100).1) ∧
+    BlockedW (runLoop 19 (cexLevels.simulateInit.runBegin 100).1) 8 1 ∧
+    Att (runLoop 20 (cexLevels.simulateInit.runBegin 100).1) 8 ∧
+    (runLoop 35 (cexLevels.simulateInit.runBegin 100).1).delivered = [0, 1, 2] ∧
+    (runLoop 35 (cexLevels.simulateInit.runBegin 100).1).error = none := by
+  refine ⟨by decide, by decide, by decide, by decide, by decide, by decide, by decide, by decide⟩
+
 
 end C03W
 end SimProc
